@@ -9,6 +9,7 @@ KINDS = {
     'lookup_int': 'contracts.encoders:replay_lookup_data',
     'table': 'contracts.encoders:replay_table_data',
     'reverse': 'contracts.encoders:replay_reverse_data',
+    'fault_bank': 'bounded.faults:replay',
 }
 
 
@@ -17,7 +18,7 @@ def register(kind, target):
 
 
 _MEMO = {}
-MEMO_KINDS = {'dfu', 'cli', 'pass_step', 'compress_rule', 'pseudo_effect', 'data_range', 'expr_eval'}
+MEMO_KINDS = {'fault_bank', 'dfu', 'cli', 'pass_step', 'compress_rule', 'pseudo_effect', 'data_range', 'expr_eval'}
 
 
 def run(ctx, kind, payload, model):
